@@ -344,6 +344,22 @@ func l2Probe(e *L2Env, seed uint64, knownVals []ValKey) []string {
 			r, err := l2.Q.BaseDenom(l2.Ctx, &opchildtypes.QueryBaseDenomRequest{Denom: e.L2Denom(d)})
 			q("BaseDenom("+d+")", r, err)
 		}
+		// every bridged denom anybody holds still knows its L1 name (a chain may hold more denoms than a query page)
+		held := map[string]bool{}
+		for _, coins := range sim.AllBalances(l2.Ctx, l2.BK) {
+			for _, cn := range coins {
+				held[cn.Denom] = true
+			}
+		}
+		hd := make([]string, 0, len(held))
+		for d := range held {
+			hd = append(hd, d)
+		}
+		sort.Strings(hd)
+		for _, d := range hd {
+			r, err := l2.Q.BaseDenom(l2.Ctx, &opchildtypes.QueryBaseDenomRequest{Denom: d})
+			q("BaseDenom(held "+short(d)+")", r, err)
+		}
 		for _, k := range knownVals {
 			r, err := l2.Q.Validator(l2.Ctx, &opchildtypes.QueryValidatorRequest{ValidatorAddr: k.Operator.Val()})
 			q("Validator("+k.Operator.Name+")", r, err)
@@ -542,8 +558,26 @@ func (c *c16) l2Histories(n, steps int) {
 					continue
 				}
 			}
+			large := false
+			if h%4 == 0 && s == 0 {
+				// more bridged denoms than a query page holds (130 deposits of distinct L1 denoms)
+				n := 0
+				for i := 0; i < 130; i++ {
+					for _, ex := range pool {
+						if res := l2.Deliver(e.DepositMsg(ex, e.NextL1Seq(), "l1s", e.Users[i%len(e.Users)].String(), fmt.Sprintf("ubig%03d", i), math.NewInt(int64(1+i)), nil)); res.Class == sim.OK {
+							n++
+							break
+						}
+					}
+				}
+				run.CountN("C16.L2.large.denom_pairs", n)
+				if n > 100 {
+					run.Hit("C16.L2.large_collections_sampled")
+					large = true
+				}
+			}
 			// sample this state?
-			if rng.Chance(6) {
+			if large || rng.Chance(6) {
 				var kv []ValKey
 				for i := 1; i <= 5; i++ {
 					if known[i] {
@@ -624,6 +658,7 @@ func checkC16(run *mon.Run, rng *mon.Rand, thorough bool) {
 		run.Declare(c, 8)
 	}
 	run.Declare("C16.L1.large_collections_sampled", 1)
+	run.Declare("C16.L2.large_collections_sampled", 1)
 	c := &c16{run: run, rng: rng}
 	// L1: sample states along world histories
 	hist := pick(thorough, 6, 80)
